@@ -68,6 +68,8 @@ func init() {
 		{ID: "E1.device.poll-timeout-positive.legacy-server", Fn: "op.(*LegacyServer).DeviceToken", Kind: "call", Pat: "context.WithTimeout(_, $d)", Min: 1, Max: 1,
 			Why: "sibling of deviceAccessToken",
 			Req: []string{"positive($d)"}},
+		{ID: "E8.device.config-getter-identity", Fn: "op.(*Provider).DeviceAuthorization", P: []string{"o"}, Kind: "ret any", Pat: "ret($o.config.DeviceAuthorization)", Min: 1, Max: 1, Only: true,
+			Why: "user-code alphabet and format, lifetime and poll interval are the configured ones: the getter returns the stored configuration as it is (0 dashes, 0 interval are legal settings, not 'unset')"},
 		{ID: "E1.device.token.provider", Fn: "op.deviceAccessToken", Kind: "call", Pat: "op.CreateDeviceTokenResponse(_, $tr, _, $client)", Max: 1,
 			Why: "tokens go to the client that polls with its own id; confidential clients must have authenticated",
 			Req: []string{
